@@ -56,6 +56,7 @@ Ev == [ev |-> "unfill", s |-> s, text |-> text, ii |-> ii, si |-> si, width |-> 
        status |-> (IF fault = "none" THEN "ok" ELSE "panic")]
 AllOk(cs) == \A x \in 1..Len(cs) : cs[x].ok \/ (PrintT(<<"FAILED", cs[x].p, cs[x].c, cs[x].r>>) /\ FALSE)
 PropUnfill == pc = "done" => AllOk(Judge_unfill(Ev))
-Terminates == <>(pc = "done" \/ pc = "type")
+\* once a call has begun it returns (checked under weak fairness of the step actions: the algorithms terminate)
+Terminates == (pc # "type") ~> (pc = "done")
 Emit == pc = "done" => PrintT(<<"REPLAY", ToJson([k |-> "unfill", s |-> s])>>)
 =============================================================================
